@@ -208,6 +208,21 @@ def ops(S):
     N = S.n
     if S.depth == 1:
         return _leaf_ops((), S.root, N, True)
+    if S.depth == 3:
+        # reduced alphabet for 3-rank trees: references at every full and partial point, position references and
+        # clear at every stored fiber (an insertion below an interior fiber must create fibers down to the leaf rank)
+        out = []
+        for ln in (1, 2, 3):
+            for pt in itertools.product(range(N), repeat=ln):
+                out.append(("ref2", pt, "none"))
+                if ln == 3:
+                    out.append(("ref2", pt, "set1"))
+        for path, f in _paths(S.root):
+            out.append(("clear", path))
+            if len(path) < 2:
+                for c in range(N):
+                    out.append(("posref", path, c))
+        return out
     out = []
     root = S.root
     mx = max(_leafvals(root) + [0])
@@ -435,6 +450,8 @@ def run(ctx):
         ("d2-2x2-tensor", [("t", 2, 2, s, True) for s in
                            [None, (('0', '1'), None), (('-', '-'), ('1', '0')), (('1', '-'), ())]],
          2 if q else 4, 600),
+        ("d3-2x2x2-tensor", [("t", 3, 2, s, True) for s in
+                             [None, ((None, None), (('1', '-'), None)), (((), ('0', '1')), None)]], 2 if q else 3, 300),
         ("d2-2x2-unowned", [("t", 2, 2, s, False) for s in [(('0', '1'), None), ((), ('1', '1'))]],
          2 if q else 3, 400),
     ]
